@@ -50,6 +50,13 @@ def gen_cases(E, ctx):
             for i in range(60 if not ctx.thorough else 600):
                 cases.append(E.make_case(rng, s, maxdepth=rng.choice([1, 2, 3]), size=0.3, klass='embed-top-level',
                                          embed_bias=rng.choice([0.0, 0.5]), embed_top=1.0, embed_ws=rng.choice([0.0, 0.3, 1.0])))
+    if 'bnest' in E.HG:
+        # the generated <field>_nest / _typed_nest (an existing buffer placed as a [ubyte] vector): align argument 0 (documented default 8 for table
+        # roots, the struct's alignment for struct roots) and explicit, source bytes at addresses 0 / 4 / 1 / 2 / 8 / 12 mod 256, content with long /
+        # double / 16-aligned structs, after prefixes of varying size
+        s = E.by_name['bnest']
+        for i in range(60 if not ctx.thorough else 600):
+            cases.append(E.make_case(rng, s, maxdepth=2, size=rng.choice([0.3, 1.0]), klass='nested-generated-nest', gen_api=True, full=i % 2 == 0, nest_only=True, embed_bias=0.0))
     if 'bnest' in E.BC:        # 34..80 and more nested buffers in one build repeating the parent's table shapes (see checks/c15.py)
         for i in range(4 if not ctx.thorough else 40):
             cases.append(E.make_many_nested_case(rng, rng.choice([9, 12, 16, 20]), styles=i % 2 == 1))
@@ -185,7 +192,7 @@ def run(ctx):
             ok = ctx.check_theorems(prop_module=extra) and ok
     if not ok:
         ctx.broken_obligation('Properties_C02.vo', getattr(ctx, 'broken', {}))
-    E = Engine(ctx, with_gen_api=bool(ctx.replay_in))
+    E = Engine(ctx, with_gen_api=True if ctx.replay_in else {'bnest'})       # generated builder api: bnest only (<field>_nest / _typed_nest)
     rng = ctx.rng
 
     if ctx.replay_in:
@@ -217,7 +224,8 @@ def run(ctx):
                 key = 'reported-alignment-differs'
             ctx.violation(key, 'model and implementation disagree on a build script (%s differ)%s' % (
                 ','.join(what), '; see the oracle violations of this run for the property-level failure' if explained else ''),
-                {'harness_line': c.h, 'model_line': c.m, 'schema': c.schema.name, 'impl': c.hrep[:3000], 'model': c.mrep[:3000]})
+                {'theorem_or_correspondence': 'correspondence of the extracted builder model (coq/Builder, modelrun_builder) with src/runtime/builder.c on this script; every independent clause check (format decoder, alignment, read-back, verifier) passed on the implementation output', 'harness_line': c.h, 'model_line': c.m, 'schema': c.schema.name, 'impl': c.hrep[:3000], 'model': c.mrep[:3000]},
+                kind='property-violation' if key == 'reported-alignment-differs' else 'no-failing-input-found')
     ctx.sample({'build_case': cases[0].h[:400], 'impl': cases[0].hrep[:300], 'model': cases[0].mrep[:300]})
 
     # ---- converse clause: an independent encoder's buffers must be accepted by the C verifier and by the decoder
